@@ -869,7 +869,10 @@ pub fn generate(prop: &str, seed: u64, thorough: bool) -> Cases {
         "C08" => crate::gen2::gen_readers(&mut rng, thorough, 41, &mut out),
         "C09" => gen_c09(&mut rng, thorough, &mut out),
         "C10" => gen_c10(&mut rng, thorough, &mut out),
+        "C11" => crate::genfibex::gen_c11(&mut rng, thorough, &mut out),
+        "C12" => crate::genfibex::gen_c12(&mut rng, thorough, &mut out),
         "C13" => gen_c13(&mut rng, thorough, &mut out),
+        "C18" => crate::gen2::gen_c18(&mut rng, thorough, &mut out),
         "C14" => gen_c14(&mut rng, thorough, &mut out),
         "C15" => gen_c15(&mut rng, thorough, &mut out),
         "C16" => gen_c16(&mut rng, thorough, &mut out),
